@@ -38,6 +38,7 @@ class Connection:
     if self.is_connected():
       raise gfapy.RuntimeError(
         "Line {} is already connected to a GFA instance".format(self))
+    self._check_segment_references(gfa)
     previous = gfa._search_duplicate(self)
     if previous:
       if previous.virtual:
@@ -53,6 +54,29 @@ class Connection:
         raise
       self._gfa._register_line(self)
       return None
+
+  def _check_segment_references(self, gfa):
+    """
+    Lines which refer to segments cannot be connected, if a line of
+    another type has the identifier of one of the segments;
+    this is checked before anything is changed in the Gfa.
+    """
+    if self.record_type not in ["L", "C", "P", "E", "G", "F"]:
+      return
+    for k in self.__class__.REFERENCE_FIELDS:
+      value = self.get(k)
+      if not isinstance(value, list):
+        value = [value]
+      for ref in value:
+        if isinstance(ref, gfapy.OrientedLine):
+          ref = ref.line
+        if isinstance(ref, str):
+          found = gfa.line(ref)
+          if found is not None and found.record_type not in ["S", "\n"]:
+            raise gfapy.NotUniqueError(
+              "Line: {}\n".format(str(self))+
+              "refers to {} as a segment\n".format(ref)+
+              "Line with the same ID: {}".format(str(found)))
 
   def _undo_partial_connection(self, gfa):
     """
